@@ -40,20 +40,30 @@ Proof. intros H. cbn. unfold int_or_float. now rewrite H. Qed.
 Lemma vmul_int a b : in_i64 (a * b) = true -> vmul (VInt a) (VInt b) = Ok (VInt (a * b)).
 Proof. intros H. cbn. unfold int_or_float. now rewrite H. Qed.
 
+(** an integer result is the exact integer, or - beyond i64 - the float computation AS A FLOAT; never an integer
+    that is not the result *)
 Lemma int_or_float_sound exact fl v :
-  int_or_float exact fl = v ->
+  int_or_float exact fl = Ok v ->
   (v = VInt exact /\ in_i64 exact = true) \/
-  (in_i64 exact = false /\ v = from_float fl).
-Proof. unfold int_or_float. destruct (in_i64 exact); intros <-; [left | right]; auto. Qed.
+  (in_i64 exact = false /\ v = VFloat fl /\ from_float fl = VFloat fl).
+Proof.
+  unfold int_or_float. destruct (in_i64 exact); [intros H; injection H as <-; left; auto|].
+  pose proof (from_float_never_other fl) as Hn.
+  destruct (from_float fl) as [| |f| | | | | |] eqn:E; try contradiction; intros H; [discriminate|].
+  injection H as <-. right. split; [reflexivity|].
+  assert (f = fl) as ->; [|auto].
+  unfold from_float in E. destruct (_ && _); [discriminate|]. now injection E.
+Qed.
 
-(** outside the i64 range the result is the float computation, which can only
-    be an Int if that float is itself an exactly integral in-range value *)
+(** outside the i64 range the result is the float computation; where that float is itself an integer in range (only
+    -2^63) the row is an error: it would print as the integer i64::MIN *)
+Definition float_or_error (fl : f64) : res value := match from_float fl with VInt _ => Err | v => Ok v end.
 Lemma vadd_int_overflow a b :
-  in_i64 (a + b) = false -> vadd (VInt a) (VInt b) = Ok (from_float (fadd (f_of_Z a) (f_of_Z b))).
-Proof. intros H. cbn. unfold int_or_float. now rewrite H. Qed.
+  in_i64 (a + b) = false -> vadd (VInt a) (VInt b) = float_or_error (fadd (f_of_Z a) (f_of_Z b)).
+Proof. intros H. cbn. unfold int_or_float, float_or_error. now rewrite H. Qed.
 Lemma vmul_int_overflow a b :
-  in_i64 (a * b) = false -> vmul (VInt a) (VInt b) = Ok (from_float (fmul (f_of_Z a) (f_of_Z b))).
-Proof. intros H. cbn. unfold int_or_float. now rewrite H. Qed.
+  in_i64 (a * b) = false -> vmul (VInt a) (VInt b) = float_or_error (fmul (f_of_Z a) (f_of_Z b)).
+Proof. intros H. cbn. unfold int_or_float, float_or_error. now rewrite H. Qed.
 
 (** *** division and mixed operands: IEEE double, then normalised *)
 Lemma to_f64_int_text r : to_f64 (int_text r) = to_f64 r.
